@@ -22,6 +22,7 @@ def plan(tier):
         PG.reusable_full_queue(), PG.reusable_resize(2, 3, 0.05), PG.reusable_resize(2, 1, None),
         PG.reusable_replace(None, False), PG.two_submitters(2, 0.05), PG.cancel_prog(1),
         PG.memory_leak_respawn(1, None, "nowait"), PG.cancel_run(6, 1),
+        PG.submit_cancel_shutdown(1, True), PG.submit_cancel_shutdown(2, False),
         PG.resubmit_from_callback("bad_arg", 1), PG.resubmit_from_callback("die", 2),
     ]
     pl = [(p, 1, dict(kinds=("P", "T", "K"))) for p in progs]
